@@ -165,8 +165,24 @@ func (c *config) WriteTCPServicesMaps() error {
 // used in the frontend. Should be called before write the main
 // config file. This func doesn't change model state, except the
 // link to the frontend maps.
+// rootRedirectChanged reports if a changed backend has the root path of a host
+// with app-root: the ssl redirect of that path is part of the frontend maps,
+// although it is a backend configuration.
+func (c *config) rootRedirectChanged() bool {
+	for _, backend := range c.backends.ItemsAdd() {
+		for _, path := range backend.Paths {
+			if path.Path() == "/" {
+				if host := c.hosts.FindHost(path.Hostname()); host != nil && host.RootRedirect != "" {
+					return true
+				}
+			}
+		}
+	}
+	return false
+}
+
 func (c *config) WriteFrontendMaps() error {
-	if c.frontend.Maps != nil && !c.hosts.Changed() {
+	if c.frontend.Maps != nil && !c.hosts.Changed() && !c.rootRedirectChanged() {
 		// TODO Maps!=nil just to preserve the current behavior. Check if this can be removed.
 		// hosts are clean, maps are updated
 		return nil
